@@ -1,7 +1,7 @@
 (* C05 - interval elementary functions and integer powers enclose every pointwise value.
    The libm functions are oracles of the model; in these theorems they are the real functions exp, ln, sin, cos. *)
 From Coq Require Import Reals Lra ZArith.
-From PUN Require Import Base.Num Model.Interval Model.IntervalFun Proofs.IntervalFun Proofs.Trig.
+From PUN Require Import Base.Num Model.Interval Model.IntervalFun Proofs.IntervalFun Proofs.Trig Proofs.TrigV.
 Open Scope R_scope.
 
 Section S.
@@ -53,6 +53,12 @@ Theorem C05_sin_encloses lo hi a b x : lo <= hi -> isin RN PI fsin fmod (lo, hi)
 Proof. exact (isin_encl fsin fmod fsin_is fmod_spec lo hi a b x). Qed.
 Theorem C05_cos_encloses lo hi a b x : lo <= hi -> icos RN PI fcos fmod (lo, hi) = Ok (a, b) -> lo <= x <= hi -> a <= cos x <= b.
 Proof. exact (icos_encl fcos fmod fcos_is fmod_spec lo hi a b x). Qed.
+(* the array-valued forms (masked assignments of sin_vector / cos_vector, per element) enclose the function as well; their tables differ
+   from the scalar ones exactly on the boundaries of the monotone segments (finding O28), where both are enclosures *)
+Theorem C05_sin_array_encloses lo hi a b x : lo <= hi -> isin_v RN PI fsin fmod (lo, hi) = Ok (a, b) -> lo <= x <= hi -> a <= sin x <= b.
+Proof. exact (isin_v_encl fsin fmod fsin_is fmod_spec lo hi a b x). Qed.
+Theorem C05_cos_array_encloses lo hi a b x : lo <= hi -> icos_v RN PI fcos fmod (lo, hi) = Ok (a, b) -> lo <= x <= hi -> a <= cos x <= b.
+Proof. exact (icos_v_encl fcos fmod fcos_is fmod_spec lo hi a b x). Qed.
 (* tan: a bounded result means that no pole lies in the interval and tan stays between the bounds; an interval at least pi wide is
    reported unbounded (end points are assumed not to be poles themselves: no binary64 number is an odd multiple of pi/2) *)
 Hypothesis fmodpi_spec : forall x, exists k : Z, fmod x PI = x - IZR k * PI /\ 0 <= fmod x PI < PI.
@@ -78,3 +84,5 @@ Print Assumptions C05_negative_pow_pole.
 Print Assumptions C05_sin_encloses.
 Print Assumptions C05_cos_encloses.
 Print Assumptions C05_tan_encloses.
+Print Assumptions C05_sin_array_encloses.
+Print Assumptions C05_cos_array_encloses.
